@@ -6,18 +6,18 @@ ID = "C15"
 HARNESSES = [dict(name="cgnat", pkg="./internal/cgnat/", test="TestVerifC15", timeout=900,
                   files=[("internal/cgnat/zz_verif_c15_test.go", "harness/C15/zz_verif_c15_test.go")])]
 MODEL_NEEDS_IMPL = True
-# The model has one flag per defect that was found; all nine are fixed in /repo, so only the repaired model (= /repo
-# HEAD) is tried and a regression to any of them is a VIOLATION:
+# The model has one flag per defect that was found.  Fixed in /repo (a regression is a VIOLATION, no variant tried):
 # R restore unvalidated 285c7b2, A reverse Add duplicate 7d1d0b3, D duplicate outside address 3b1c45d, S synced rollback
 # 0cedd79, V inside VRF 0 53e73c2, X pools sharing an outside address 1fd8c60, L late add completion 8d8ac1d,
 # C port geometry unchecked by Validate 0e7517a, G preserved mapping not released 2953f22.
-# The driver still understands "def:<letters>" (historical _refuted replays, triage by hand).
-VARIANTS = ["repaired"]
+# Open (deepen round): Q the restore-window event queue drops releases past its bound.
+VARIANTS = ["repaired", "def:Q"]
 DEFECT_NAMES = {"R": "restore-unvalidated", "A": "reverse-add-duplicate", "D": "duplicate-outside-address",
                 "S": "synced-rollback-keeps-reverse-entries", "V": "inside-vrf-zero",
                 "X": "pool-outside-overlap", "L": "late-add-completion",
-                "C": "config-port-geometry-unchecked", "G": "preserved-mapping-not-released"}
-RULE = ("Three kinds of history. mp: two pools on one PoolManager (outside addresses disjoint, overlapping or equal), cgnat.Config.Validate first, then <=40 pool calls addressed to either pool, dumps with the cross-pool overlap monitor.  comp subscribers come in VRF twins (same inside address in VRF 0, 1, 2) and a share of the activations leaves the dataplane add in flight (L) and completes it later (K ok/failed) in any order relative to the other events.  pool: <=70 calls of AllocateBlock/GetOrAllocate/ReleaseBlocks/RestoreMapping/"
+                "C": "config-port-geometry-unchecked", "G": "preserved-mapping-not-released",
+                "Q": "queue-overflow-drops-release"}
+RULE = ("Four kinds of history. ev: the real Component with its restore-window queue open: lifecycle (active / released / other state) x (IPoE / PPPoE / other access), programmed and restored events and foreign payloads go through the subscribed entry points, restore steps run directly, Z = drainQueue, further events follow; three cases per run overflow the 4096-event bound with a release among the overflowing events.  Three further kinds.  mp: two pools on one PoolManager (outside addresses disjoint, overlapping or equal), cgnat.Config.Validate first, then <=40 pool calls addressed to either pool, dumps with the cross-pool overlap monitor.  comp subscribers come in VRF twins (same inside address in VRF 0, 1, 2) and a share of the activations leaves the dataplane add in flight (L) and completes it later (K ok/failed) in any order relative to the other events.  pool: <=70 calls of AllocateBlock/GetOrAllocate/ReleaseBlocks/RestoreMapping/"
         "RestoreMappingIfAbsent on one PoolManager over <=7 subscribers (two VRFs); comp: <=45 events driven through "
         "the real Component (handleSessionActivate with and without an HA-synced record, handleSessionRelease, "
         "restoreFromOpDB with one persisted mapping in the session-present and the degraded branch), each with a fault "
@@ -322,9 +322,77 @@ def gen_mp_case(rng, nmax):
     return "mp " + " ".join(t1) + " || " + " ".join(t2) + " | " + " ".join(ops)
 
 
+def gen_ev_case(rng, nmax, overflow=False):
+    toks, gp = gen_cfg(rng, allow_dup=False)
+    subs = rng.sample([1, 2, 3, 4, 65537, 65538, 258, 700, 7, 14], rng.randint(3, 7))
+    ok = lambda k: 0 if k % 7 == 0 else 1          # outcome of the dataplane add, fixed per subscriber in a case
+    nxt = [1]
+    known = {}                                       # sid -> k for sessions the component may know
+    ops = []
+    sw = sweep_ops(gp)
+
+    def new_sid():
+        nxt[0] += 1
+        return nxt[0]
+
+    def event():
+        r = rng.random()
+        acc = rng.choice("iiippo")
+        if r < 0.40:
+            sid, k = new_sid(), rng.choice(subs)
+            if known and rng.random() < 0.2:
+                sid = rng.choice(list(known))
+                k = known[sid]
+            known.setdefault(sid, k)
+            return "%s:%s:%d:%d:%d" % (rng.choice(["eP", "eP", "eR"]), acc, sid, k, ok(k))
+        if r < 0.70:
+            if known and rng.random() < 0.8:
+                sid = rng.choice(list(known))
+                k = known[sid]
+                if rng.random() < 0.7:
+                    del known[sid]
+            else:
+                sid, k = new_sid(), rng.choice(subs)
+            pat = rng.choice(["", "", ":f", ":of"])
+            return "eL:r:%s:%d:%d%s" % (acc, sid, k, pat)
+        if r < 0.80:
+            return "eL:%s:%s:%d:%d" % (rng.choice("ao"), acc, new_sid(), rng.choice(subs))
+        if r < 0.92:
+            mk = rng.choice(subs)
+            ip, s_, e_, _ = restore_arg(rng, gp)
+            sid = new_sid()
+            known.setdefault(sid, mk)
+            return "%s:%d:%d:%d:%d:%d" % (rng.choice("PD"), sid, mk, ip, s_, e_)
+        return "eB"
+    nwin = rng.randint(2, nmax // 2)
+    if overflow:
+        # a restored session whose release arrives when the queue is full
+        mk = subs[0]
+        bs, ps = max(gp["bs"], 1), gp["ps"]
+        ops.append("P:900:%d:%d:%d:%d" % (mk, gp["ips"][0], ps, ps + bs - 1))
+        ops.append("F:%d" % rng.choice([4094, 4095, 4096]))
+        ops.append("eP:i:901:%d:%d" % (subs[1], ok(subs[1])))
+        ops.append("eL:r:i:900:%d" % mk)
+        ops.append("eP:i:902:%d:%d" % (subs[2], ok(subs[2])))
+        ops.append("eL:r:p:903:%d" % subs[1])
+    else:
+        for _ in range(nwin):
+            ops.append(event())
+            if rng.random() < 0.15:
+                ops.append("d")
+    ops.append("Z")
+    ops += sw
+    ops.append("d")
+    for _ in range(rng.randint(2, nmax // 2)):
+        ops.append(event())
+        ops += sw
+    ops.append("d")
+    return "ev " + " ".join(toks) + " | " + " ".join(ops)
+
+
 def gen_cases(rng, tier, budget):
-    npool = (budget or 500) if tier == "quick" else (budget or 5000)
-    ncomp = (budget or 450) if tier == "quick" else (budget or 4500)
+    npool = (budget or 400) if tier == "quick" else (budget or 5000)
+    ncomp = (budget or 300) if tier == "quick" else (budget or 4500)
     cases = []
     # fill-and-drain histories: every block of a small pool is handed out, released and handed out again
     for bs, mx, pooling, outs in [(16, 3, 2, "%d,%d" % (BASE + 1, BASE + 2)), (32, 2, 1, "%d/31" % BASE), (64, 1, 0, str(BASE + 3)),
@@ -357,6 +425,8 @@ def gen_cases(rng, tier, budget):
         cases.append(gen_pool_case(rng, 70 if tier == "thorough" or rng.random() < 0.3 else 30))
     for _ in range(150 if tier == "quick" else 1500):
         cases.append(gen_mp_case(rng, 40))
+    for i in range(170 if tier == "quick" else 1700):
+        cases.append(gen_ev_case(rng, 24, overflow=(i < 3 if tier == "quick" else i < 12)))
     for _ in range(ncomp):
         cases.append(gen_comp_case(rng, 30 if tier == "thorough" or rng.random() < 0.3 else 14))
     return cases
@@ -442,9 +512,12 @@ def classify(case, impl, model):
 
 def classify1(case, impl, model):
     if "INADMISSIBLE" in model:
-        i = [j for j, o in enumerate(model.split(" ; ")) if o.startswith("INADMISSIBLE")][0]
+        outs = model.split(" ; ")
+        i = [j for j, o in enumerate(outs) if "INADMISSIBLE" in o][0]
+        ops_ = split_ops(case)[1]
         return "P", "op #%d (%s): the implementation handed out %s, which is not a free aligned in-range block on an " \
-                    "admissible address" % (i, split_ops(case)[1][i], model.split(" ; ")[i][13:])
+                    "admissible address (or made a dataplane add the model does not expect there)" % (
+                        i, ops_[i] if i < len(ops_) else "?", outs[i][outs[i].index("INADMISSIBLE") + 13:][:60])
     io, mo = impl.split(" ; "), model.split(" ; ")
     ops = split_ops(case)[1]
     for j, (a, b) in enumerate(zip(io, mo)):
@@ -490,7 +563,9 @@ def config_invalid(case):
 
 
 def signature(case, impl, models):
-    return None        # no finding is open
+    if models.get("def:Q") == impl:
+        return DEFECT_NAMES["Q"]
+    return None
 
 
 def nontrivial(case, out):
@@ -527,19 +602,27 @@ def describe(case, impl, model):
 
 
 def distribution(cases, impl):
-    d = {"pool_cases": 0, "comp_cases": 0, "mp_cases": 0, "mp_rejected": 0, "ops": {}, "alloc_ok": 0, "alloc_old": 0, "err_limit": 0, "err_nofree": 0,
+    d = {"pool_cases": 0, "comp_cases": 0, "mp_cases": 0, "mp_rejected": 0, "ev_cases": 0, "ev_queued": 0,
+         "ev_dropped_max": 0, "ev_drain_adds": 0, "ev_dispatched_direct": 0, "ops": {}, "alloc_ok": 0, "alloc_old": 0, "err_limit": 0, "err_nofree": 0,
          "err_allocfail": 0, "restore_ok": 0, "restore_err": 0, "dp_calls": 0, "panics": 0, "impl_flags": {},
          "blocks_per_addr": {}, "history_len": {"<=10": 0, "11-30": 0, "31-80": 0, ">80": 0},
          "sweep_runs": 0, "max_subscribers_in_dump": 0}
     for c, o in zip(cases, impl):
         cfg, ops = split_ops(c)
-        d[{"pool": "pool_cases", "comp": "comp_cases"}.get(cfg[0], "mp_cases")] += 1
+        d[{"pool": "pool_cases", "comp": "comp_cases", "ev": "ev_cases"}.get(cfg[0], "mp_cases")] += 1
         n = len(ops)
         d["history_len"]["<=10" if n <= 10 else "11-30" if n <= 30 else "31-80" if n <= 80 else ">80"] += 1
         outs = (o or "").split(" ; ")
         for t, r in zip(ops, outs):
             k = t.split(":")[0]
             d["ops"][k] = d["ops"].get(k, 0) + 1
+            if cfg[0] == "ev" and " q=" in r:
+                ql, qd = r.split(" q=")[1].split("/")
+                if k in ("eL", "eP", "eR", "eB"):
+                    d["ev_queued" if int(ql) > 0 else "ev_dispatched_direct"] += 1
+                d["ev_dropped_max"] = max(d["ev_dropped_max"], int(qd))
+                if k == "Z":
+                    d["ev_drain_adds"] += r.count("dp ")
             if r.startswith("ok new"):
                 d["alloc_ok"] += 1
             elif r.startswith("ok old"):
